@@ -112,7 +112,7 @@ def mc_design(ck, module, cfg, what, workers=4, timeout=1500, coverage=False, ex
     ck.add_mc(r, what)
     if r["violated"]:
         tail = [l for l in r["raw_tail"].splitlines() if l.startswith("State ") or l.startswith("/\\ pc")]
-        ck.violation({"module": module.replace("MC_", ""), "tag": "design:" + r["violated"]},
+        ck.violation({"module": module.replace("MC_", ""), "tag": "design:" + r["violated"], "cfg": cfg},
                      f"the TLA+ model of the current tree ({module}, {cfg}) violates {r['violated']}: counterexample of {r['depth'] or len(tail)} states",
                      {"tlc": {"module": module, "cfg": cfg}, "counterexample_tail": r["raw_tail"][-1800:]})
     return r
